@@ -101,4 +101,3 @@ var SelfTestMutants = map[string][]Mutant{
 	"C19": {mAppendAlias, mAppendOrder},
 	"C20": {mWriteFirst, mSharedBuf, mExtraWriter},
 }
-
